@@ -62,7 +62,7 @@ structure Cfg3 (g : E2E.Cfg) : Prop where
   hOt : g.Wc.Otot = g.K.O ++ (K2t g).O
   hrv : g.Wc.revs = [rEvent g.K.C, rEvent (K2t g).C]
   hs : g.hscript = fscript g.data g.st
-  hfu : alignedBufsize g.b / 16 + wcost g.data.length + 24 ≤ 1000
+  hfu : wcost g.data.length + 24 ≤ 1000
   /-- the request parser on (prefixes of) what the request leaves unread -/
   nsU : NoStuckW g.cap g.mc g.U
   nfU : ∀ F, F <+: g.U → (run .header F g.mc).st.isFinal = false ∧ (run .header F g.mc).out = []
@@ -196,8 +196,9 @@ theorem close_out3 {g : E2E.Cfg} (ok : Cfg3 g) {c : Conn} {r r2 : AReq} {cs : Cl
 /-! ## The handler phase -/
 
 theorem rd_poll3 {g : E2E.Cfg} (ok : Cfg3 g) {r : AReq} {h : HState} {e : Run.Env} (hr : g.Rd r h e) (hb : Ben e.tr)
-    {fuel : Nat} (hfu : 1000 + 4 * e.tr.input.length ≤ fuel) :
+    {fuel : Nat} (hfu : 1000 + 4 * e.tr.input.length + 4 * g.cap ≤ fuel) :
     HOut g.Wc g.Rd e (handlerPoll fuel r h e) := by
+  have hcap : g.cap = alignedBufsize g.b := rfl
   have hr3 := ok.role
   have hfu0 := ok.hfu
   rcases hr with ⟨h1, _⟩ | ⟨_, hr⟩
@@ -299,7 +300,7 @@ theorem rinv_start3 {g : E2E.Cfg} (ok : Cfg3 g) {e1 input : Bytes}
 
 theorem first_poll3 {g : E2E.Cfg} (ok : Cfg3 g) {e1 : Bytes} {e : Run.Env} (hlen : e1.length ≤ g.cap)
     (hwire : e1 ++ e.tr.input = g.X) (hlog : e.tr.wlog = g.L1) (hm : e.mutex = none) (hb : Ben e.tr)
-    {fuel : Nat} (hfu : 1000 + 4 * e.tr.input.length ≤ fuel) :
+    {fuel : Nat} (hfu : 1000 + 4 * e.tr.input.length + 4 * g.cap ≤ fuel) :
     HOut g.Wc g.Rd e (handlerPoll fuel (AReq.new (Str.Parser.fromParser g.cap g.p.request e1 g.mc))
       { ops := g.hscript, propagate := true } e) := by
   have hrst : RSt g.K g.L1 [] (AReq.new (Str.Parser.fromParser g.cap g.p.request e1 g.mc)) e.mutex e.tr [] [] := by
@@ -340,10 +341,11 @@ theorem parse_poll3 {g : E2E.Cfg} (ok : Cfg3 g) {c : Conn} {F : Bytes}
         simp
     have hben2 : Ben (t'.ev (hsEvent g.p.request)) := hben1.wstep hwsE
     have hem2 : (t'.ev (hsEvent g.p.request)).endMode = .eof := hwsE.em.trans (hfr.ts.em.trans hem)
-    have hfuelH : 1000 + 4 * t'.input.length ≤
+    have hfuelH : 1000 + 4 * t'.input.length + 4 * g.cap ≤
         handlerFuel ((⟨t', c1.env.mutex, c1.env.segs⟩ : Run.Env).ev (hsEvent g.p.request))
           (AReq.new (Str.Parser.fromParser g.cap g.p.request e1 g.mc)) :=
-      handlerFuel_ge ((⟨t', c1.env.mutex, c1.env.segs⟩ : Run.Env).ev (hsEvent g.p.request)) _
+      handlerFuel_ge' ((⟨t', c1.env.mutex, c1.env.segs⟩ : Run.Env).ev (hsEvent g.p.request))
+        (AReq.new (Str.Parser.fromParser g.cap g.p.request e1 g.mc))
     have hcore := handler_core3 ok
       (c := ⟨.handler (AReq.new (Str.Parser.fromParser g.cap g.p.request e1 g.mc))
               { ops := g.hscript, propagate := true },
@@ -401,7 +403,7 @@ theorem stage_poll3 {g : E2E.Cfg} (ok : Cfg3 g) {c : Conn} (hst : Stage g c) (he
   | start hph hwire hraw hlog hb hstop hsc hm hev => exact start_poll3 ok hph hwire hraw hlog hb hem hstop hsc hm hev
   | parse hst hsc hm hev => exact (parse_poll3 ok hst hem hsc hm hev).mono (by omega)
   | @hread r h hph hr hb hstop hev hsc =>
-    exact (handler_core3 ok hph (rd_poll3 ok hr hb (handlerFuel_ge c.env _)) hb hem hstop hev hsc).mono (by omega)
+    exact (handler_core3 ok hph (rd_poll3 ok hr hb hr.fuel) hb hem hstop hev hsc).mono (by omega)
   | @hwrite r h O1 hph hw hb hstop hev hsc =>
     refine (handler_core3 ok hph (write_phase hw hb ?_) hb hem hstop hev hsc).mono (by omega)
     have := handlerFuel_ge c.env r
